@@ -223,10 +223,25 @@ def rule_accum(ctx, py):
     inner = [n for n in ast.walk(f) if isinstance(n, ast.FunctionDef) and n.name == "parse_side"]
     ctx.need(len(inner) == 1, R, "parse_side not found")
     g = inner[0]
-    aug = [n for n in ast.walk(g) if isinstance(n, ast.AugAssign) and pyfe.src(n.target) == "d[label]"]
-    ctx.check(len(aug) == 1 and isinstance(aug[0].op, ast.Add) and pyfe.src(aug[0].value) == "coef", R,
-              aug[0] if aug else g, f._qual, "repeated label: d[label] += coef", "repeats are summed",
-              "a repeated species overwrites instead of accumulating")
+    # the table returned, and the stores into it: one of them adds the coefficient to what the label already has
+    rn = {r.value.id for r in ast.walk(g) if isinstance(r, ast.Return) and isinstance(r.value, ast.Name)}
+    acc, plain = [], []
+    for n in ast.walk(g):
+        if isinstance(n, ast.AugAssign) and isinstance(n.target, ast.Subscript) and pyfe.src(n.target.value) in rn:
+            (acc if isinstance(n.op, ast.Add) and isinstance(n.value, ast.Name) else plain).append(n)
+        elif isinstance(n, ast.Assign) and isinstance(n.targets[0], ast.Subscript) and pyfe.src(n.targets[0].value) in rn:
+            D_, K_ = pyfe.src(n.targets[0].value), pyfe.src(n.targets[0].slice)
+            prior = ("%s.get(%s, 0)" % (D_, K_), "%s[%s]" % (D_, K_), "(%s.get(%s) or 0)" % (D_, K_), "%s.get(%s) or 0" % (D_, K_))
+            v_ = n.value
+            if isinstance(v_, ast.BinOp) and isinstance(v_.op, ast.Add) and (
+                    (pyfe.src(v_.left) in prior and isinstance(v_.right, ast.Name)) or
+                    (pyfe.src(v_.right) in prior and isinstance(v_.left, ast.Name))):
+                acc.append(n)
+            else:
+                plain.append(n)
+    # a plain store is the first occurrence of a label: it must stand under the test that the label is new
+    ctx.check(len(acc) == 1 and len(plain) <= 1, R, acc[0] if acc else g, f._qual, "repeated label: %s" % (
+              pyfe.src(acc[0]) if acc else "-"), "repeats are summed", "a repeated species overwrites instead of accumulating")
     sides = [n for n in ast.walk(f) if isinstance(n, ast.Assign) and pyfe.src(n.targets[0]) in
              ("self._substrates", "self._products")]
     got = {pyfe.src(n.targets[0]): pyfe.src(n.value) for n in sides}
@@ -302,9 +317,13 @@ def rule_accum(ctx, py):
     # a term is `label` or `coefficient label`: the label is one whole whitespace-delimited token, the coefficient the integer
     # value of another whole token (or 1).  A label cut out of a token (leading digits taken as a coefficient, a suffix dropped)
     # changes what `2PG`, `13BPG`, `5HT` mean, and the printed equation no longer reads back as the same reaction
-    if aug and not rx:
-        Lv = pyfe.src(aug[0].target.slice)
-        Cv = pyfe.src(aug[0].value)
+    if acc and not rx:
+        a0 = acc[0]
+        if isinstance(a0, ast.AugAssign):
+            Lv, Cv = pyfe.src(a0.target.slice), pyfe.src(a0.value)
+        else:
+            Lv = pyfe.src(a0.targets[0].slice)
+            Cv = pyfe.src(a0.value.right if isinstance(a0.value.right, ast.Name) else a0.value.left)
         toks = {pyfe.src(st.targets[0]) for st in ast.walk(g) if isinstance(st, ast.Assign) and isinstance(st.value, ast.Call) and
                 isinstance(st.value.func, ast.Attribute) and st.value.func.attr == "split" and not st.value.args and
                 not st.value.keywords}
@@ -372,6 +391,50 @@ def rule_matrix(ctx, py):
     ctx.floor(R, 4)
 
 
+def _print_join(ctx, R, f, g, lp):
+    """the side built as  SEP.join(terms)  over a list that receives one text per printed term: a separator stands between two
+    printed terms by construction; what remains to decide is that a term is appended only for a non-zero coefficient"""
+    from .. import pysym
+    rets = [r for r in ast.walk(g) if isinstance(r, ast.Return) and r.value is not None]
+    if len(rets) != 1:
+        return False
+    v = rets[0].value
+    if isinstance(v, ast.Name) and isinstance(pysym.local_defs(g).get(v.id), ast.AST):
+        v = pysym.local_defs(g)[v.id]
+    joins = [c for c in ast.walk(v) if isinstance(c, ast.Call) and isinstance(c.func, ast.Attribute) and c.func.attr == "join" and
+             isinstance(c.func.value, ast.Constant) and isinstance(c.func.value.value, str) and len(c.args) == 1 and
+             isinstance(c.args[0], ast.Name)]
+    if len(joins) != 1:
+        return False
+    L = joins[0].args[0].id
+    init = [st for st in g.body if isinstance(st, ast.Assign) and pyfe.src(st.targets[0]) == L]
+    if len(init) != 1 or not (isinstance(init[0].value, ast.List) and not init[0].value.elts):
+        return False
+    ctx.check(joins[0].func.value.value.strip() == "+", R, joins[0], f._qual, "terms joined by %r" % joins[0].func.value.value,
+              "one '+' between two printed terms", "the separator is not '+'")
+    # the coefficient of the current term: second loop variable over .items(), or D[key]
+    coefs = set()
+    if isinstance(lp.target, ast.Tuple) and len(lp.target.elts) == 2 and pyfe.src(lp.iter).endswith(".items()"):
+        coefs.add(pyfe.src(lp.target.elts[1]))
+    elif isinstance(lp.target, ast.Name):
+        coefs.add("%s[%s]" % (g.args.args[0].arg, lp.target.id))
+    apps = []
+
+    def on(node, facts):
+        for c in pyfe.calls_in(node):
+            if pyfe.call_name(c) in (L + ".append", L + ".insert", L + ".extend") and not isinstance(node, (ast.For, ast.If)):
+                apps.append((c, facts))
+    pya.must_facts(g, on_stmt=on)
+    other = [x for x in ast.walk(g) if isinstance(x, ast.Name) and x.id == L and isinstance(x.ctx, ast.Store)]
+    ok = len(apps) >= 1 and len(other) == 1
+    for c, facts in apps:
+        ok = ok and pyfe.call_name(c) == L + ".append" and any((k + " == 0", False) in facts for k in coefs)
+    ctx.check(ok, R, apps[0][0] if apps else g, f._qual, "a term is appended only when its coefficient is not 0",
+              "terms with coefficient 0 are skipped", "a term with coefficient 0 is printed (or the list of terms is filled "
+              "elsewhere): '0 A + B -> C' prints a species that does not take part")
+    return True
+
+
 def rule_print(ctx, py):
     """to_string: the '+' separator is emitted iff an earlier term was emitted (terms with coefficient 0 are skipped)"""
     R = "C19.PRINT"
@@ -382,6 +445,9 @@ def rule_print(ctx, py):
     loops = [n for n in ast.walk(g) if isinstance(n, ast.For)]
     ctx.need(len(loops) == 1, R, "encode_side: term loop not found")
     lp = loops[0]
+    if _print_join(ctx, R, f, g, lp):
+        ctx.floor(R, 2)
+        return
     guards = [n for n in lp.body if isinstance(n, ast.If)]
     ctx.need(len(guards) == 1 and not guards[0].orelse, R, "encode_side: non-zero coefficient guard not found")
     gd = guards[0]
